@@ -315,6 +315,8 @@ class Exec:
                 return v
             if z3.is_int(v) or z3.is_real(v):
                 return v != 0
+            if v.sort() == ty.IdSort:
+                return v != ty.id_const("")         # a string is falsy exactly when it is empty
             raise Unsupported(f"truth value of {v.sort()}", node)
         if isinstance(v, ty.SeqV):
             return v.len > 0
